@@ -874,6 +874,7 @@ func (r *proxyStreamReceiver) recvReplicationMessages(
 						sentByTarget[targetShardID] = true
 						numRemaining--
 						progress = true
+						vfYield("receiver.handoff")
 					} else {
 						if !loggedByTarget[targetShardID] {
 							r.logger.Warn("No send channel found for target shard; retrying until available", tag.NewStringTag("task-target-shard", ClusterShardIDtoString(targetShardID)))
